@@ -16,6 +16,7 @@ def gen(rng, with_pump):
     structs = 0
     if with_pump:
         lines.append(("@macro mkglob, 1, nm1\nnm1:\n@endmacro", None))
+        lines.append(("@macro emit1, 1, pv1\n@db pv1\n@endmacro", None))
     if rng.random() < 0.06:
         # a local name before any global label must be rejected -- also right after a struct or a macro
         # definition, neither of which opens a scope
@@ -30,8 +31,19 @@ def gen(rng, with_pump):
         if r < 0.15 or ns is None:
             globs += 1
             g = "Glob%d" % globs
-            if with_pump and rng.random() < 0.3:
+            k = rng.random()
+            if with_pump and k < 0.3:
                 lines.append(("mkglob %s" % g, ns)); ns = g
+            elif with_pump and k < 0.45:
+                # a label without its colon, followed on the same line by text that the token pump expands at once:
+                # the label's scope is already in force for it
+                if rng.random() < 0.5:
+                    lines.append(('%s @parse "@db @isdef %s"' % (g, rng.choice(LOCALS)), g)); ns = g
+                else:
+                    # ... a macro invocation whose argument is evaluated while it is collected
+                    lines.append(("%s emit1 @isdef %s" % (g, rng.choice(LOCALS)), g)); ns = g
+            elif k < 0.6:
+                lines.append(("%s @db @isdef %s" % (g, rng.choice(LOCALS)), g)); ns = g
             else:
                 lines.append(("%s:" % g, ns)); ns = g
         elif r < 0.27 and fresh:
@@ -65,9 +77,18 @@ def gen(rng, with_pump):
         elif r < 0.93:
             structs += 1
             sn = "Stru%d" % structs
-            body = "@struct %s\n  fa 2\n  fb .fa + 3\n  fc @sizeof .fb\n@endstruct" % sn
-            lines.append((body, ("STRUCT", sn, ns)))
-            lines.append(("@dw %s.fb, %s.fc, @sizeof %s.fc" % (sn, sn, sn), ns))
+            if rng.random() < 0.5:
+                body = "@struct %s\n  fa 2\n  fb .fa + 3\n  fc @sizeof .fb\n@endstruct" % sn
+                lines.append((body, ("STRUCT", sn, ns)))
+                lines.append(("@dw %s.fb, %s.fc, @sizeof %s.fc" % (sn, sn, sn), ns))
+            else:
+                # fields named like the locals of the enclosing scope: inside the body `.aa` is the field, after
+                # @endstruct it is the enclosing scope's local again
+                body = "@struct %s\n  aa 2\n  bb .aa + 3\n  cc @sizeof .bb\n@endstruct" % sn
+                lines.append((body, ("STRUCT", sn, ns)))
+                lines.append(("@dw %s.bb, %s.cc, @sizeof %s.cc" % (sn, sn, sn), ns))
+                for l in rng.sample(LOCALS, 2):
+                    lines.append(("@dw ( %s + 1 ) & $ffff" % l, ns)); used.add((ns, l))
         elif with_pump and fresh:
             l = rng.choice(fresh)
             lines.append(('@meta "kk" "vv%d"\n%s:\n@endmeta\n@db @getmeta %s, "kk"' % (globs, l, l), ns)); defined.add((ns, l))
@@ -89,12 +110,15 @@ def render(lines, qualified, rng=None):
             out.append(text); continue
         if isinstance(ns, tuple):
             _, sn, outer = ns
-            out.append(text.replace(" .fa", " %s.fa" % sn).replace(" .fb", " %s.fb" % sn)); continue
+            t = text.replace(" .fa", " %s.fa" % sn).replace(" .fb", " %s.fb" % sn)
+            for l in LOCALS:
+                t = t.replace(" " + l, " " + sn + l)
+            out.append(t); continue
         if ns is None or ns == "DONE":
             out.append(text); continue         # no scope: the local spelling has no qualified form (must be rejected)
         t = text
         for l in LOCALS:
-            t = t.replace(l, ns + l)
+            t = re.sub(r"(?<![A-Za-z0-9_])" + re.escape(l) + r"\b", ns + l, t)      # (not the `.bb` of an already qualified `Stru1.bb`)
         out.append(t)
     return "\n".join(out) + "\n"
 
